@@ -6400,18 +6400,23 @@ def aten_maximum(self: TTensor, other: TTensor) -> TTensor:
     return op.Max(self, other)
 
 
-@torch_op("aten::mean")
-def aten_mean(self: TReal) -> TReal:
+@torch_op("aten::mean", trace_only=True)
+def aten_mean(self: TReal, dtype: int = -1) -> TReal:
     """mean(Tensor self, *, ScalarType? dtype=None) -> Tensor"""
 
+    if dtype != -1 and dtype is not None:
+        # PyTorch casts the input before reducing
+        self = op.Cast(self, to=dtype)
     result = op.ReduceMean(self)
     return op.Squeeze(result)
 
 
 @torch_op("aten::mean", complex=True, trace_only=True)
-def aten_mean_complex(self: TReal) -> TReal:
+def aten_mean_complex(self: TReal, dtype: int = -1) -> TReal:
     """mean(Tensor self, *, ScalarType? dtype=None) -> Tensor"""
 
+    if dtype != -1 and dtype is not None:
+        raise NotImplementedError("dtype is not supported for complex mean")
     rank = len(self.shape) - 1
     dim = op.Constant(value_ints=list(range(rank)))
     result = op.ReduceMean(self, dim, keepdims=False)
@@ -8526,7 +8531,10 @@ def aten_repeat_interleave_self_int(
 
 @torch_op("aten::repeat_interleave.Tensor", trace_only=True)
 def aten_repeat_interleave_Tensor(
-    self: TensorType, repeats: Optional[TensorType] = None, dim: Optional[int] = None
+    self: TensorType,
+    repeats: Optional[TensorType] = None,
+    dim: Optional[int] = None,
+    output_size: Optional[int] = None,  # pylint: disable=unused-argument
 ) -> TensorType:
     """repeat_interleave.Tensor(Tensor repeats, *, int? output_size=None) -> Tensor
 
@@ -9551,8 +9559,12 @@ def aten_stft(
     normalized: bool = False,
     onesided: Optional[bool] = None,
     return_complex: Optional[bool] = None,
+    align_to_window: Optional[bool] = None,
 ) -> TFloat:
-    """stft(Tensor self, int n_fft, int? hop_length=None, int? win_length=None, Tensor? window=None, bool normalized=False, bool? onesided=None, bool? return_complex=None) -> Tensor"""
+    """stft(Tensor self, int n_fft, int? hop_length=None, int? win_length=None, Tensor? window=None, bool normalized=False, bool? onesided=None, bool? return_complex=None, bool? align_to_window=None) -> Tensor"""
+
+    if align_to_window:
+        raise NotImplementedError("align_to_window=True is not supported")
 
     # NOTE: regardless of the value of return_complex, we always return a real representation.
     del return_complex
